@@ -221,12 +221,17 @@ func dVote(v *protocol.ViewChangeMessageContent) wVote {
 
 // goDecode reads content bytes with the repo's readers exactly as the handlers do; panicked = a reader panicked
 func goDecode(content []byte) (res *wMsg, panicked bool) {
+	return goDecodeRaw(&interfaces.ConsensusRawMessage{Content: content})
+}
+
+// goDecodeRaw: the same on a raw-message struct the caller owns (a receive slot that is refilled for every message)
+func goDecodeRaw(raw *interfaces.ConsensusRawMessage) (res *wMsg, panicked bool) {
 	defer func() {
 		if e := recover(); e != nil {
 			res, panicked = nil, true
 		}
 	}()
-	cm := interfaces.ToConsensusMessage(&interfaces.ConsensusRawMessage{Content: content})
+	cm := interfaces.ToConsensusMessage(raw)
 	switch m := cm.(type) {
 	case *interfaces.PreprepareMessage:
 		return &wMsg{Kind: "PP", Ref: dRef(m.Content().SignedHeader()), Snd: dSig(m.Content().Sender())}, false
@@ -263,6 +268,7 @@ func runWire(cfg *runCfg) error {
 	}
 	kr := newKeyring(cfg.seed)
 	var cases, dcases, bcases []string
+	slot := &interfaces.ConsensusRawMessage{}
 	for i := 0; i < n; i++ {
 		m := &wMsg{}
 		switch r.Intn(5) {
@@ -332,6 +338,12 @@ func runWire(cfg *runCfg) error {
 				rep.finding("C20", "signature-does-not-verify-over-reread-bytes", m.Kind, m.coq())
 			}
 		}
+		// parsing depends on the bytes alone: a receive slot that held another message before reads this one the same way
+		slot.Content, slot.Block = cp(raw.Content), nil
+		if again, p2 := goDecodeRaw(slot); p2 || again == nil || again.coq() != dec.coq() {
+			rep.finding("C20", "parse-depends-on-how-the-bytes-were-produced", fmt.Sprintf("%s: the same bytes read through a raw-message struct that carried another message before give %s, read through a fresh one %s", m.Kind, clip([]string{coqOpt(again)}), clip([]string{dec.coq()})), m.coq())
+		}
+		rep.count("reread-through-a-reused-slot")
 		cases = append(cases, fmt.Sprintf("(%s, %s, %s)", m.coq(), cBytes(raw.Content), coqOpt(dec)))
 		rep.sample(map[string]interface{}{"kind": m.Kind, "content_len": len(raw.Content)}, 4)
 		// mutated bytes: truncation at a random offset, a size word replaced, a bit flip, trailing bytes
